@@ -284,9 +284,20 @@ def execute(sc, ctx):
                 return any(key == s[: len(key)] or key[: len(s)] == s for s in sel)
 
             v = view(idx, f)
-            first = sorted(key for key, _ in v.iteritems())
-            second = sorted(key for key, _ in v.iteritems())
-            return ("ok", first, second, sorted(kk for kk in keys if f(kk)))
+            # with or without a prefix (a directory of the logical index, possibly
+            # strictly inside a still unloaded directory object)
+            prefix = None
+            if op["detail"]:
+                cand = [kk for kk in dirkeys + inside if kk != () and f(kk) and F.get(kk, ("dir",))[0] == "dir"]
+                prefix = pick(cand, (r + r2) / 2) if cand else None
+            kw = {"prefix": prefix} if prefix is not None else {}
+            try:
+                first = sorted(key for key, _ in v.iteritems(**kw))
+                second = sorted(key for key, _ in v.iteritems(**kw))
+            except KeyError:
+                return ("KeyError", prefix)
+            want_keys = sorted(kk for kk in keys if f(kk) and (prefix is None or kk[: len(prefix)] == prefix))
+            return ("ok", first, second, want_keys)
         raise HarnessError("unknown op " + k)
 
     def expect(op):
@@ -339,8 +350,11 @@ def execute(sc, ctx):
         if k == "view":
             if gotE[0] == "ok" and (gotE[1] != gotE[3] or gotE[2] != gotE[3]):
                 raise HarnessError(f"model disagrees with the EXPLICIT index on view op{n}: {gotE!r}")
+            if gotE[0] != "ok":
+                raise HarnessError(f"explicit index raised on view op{n}: {gotE!r}")
             if gotL[0] != "ok":
-                ctx.violate("lazy-view-raised", f"{gotL[1]}:{state}", f"op{n} {op}: {gotL}")
+                ctx.violate("lazy-view-raised", f"{gotL[0]}:prefix-in-unloaded-dir:{state}" if gotL[0] == "KeyError" else f"{gotL[1]}:{state}",
+                            f"op{n} {op}: {gotL} (the explicit index yields {len(gotE[1])} entries)")
             else:
                 if gotL[1] != gotL[3]:
                     extra = [x for x in gotL[1] if x not in gotL[3]]
